@@ -27,6 +27,8 @@ for d in sorted(glob.glob("seeded/C*-m*")):
         json.dump(meta, open(os.path.join(d, "meta.json"), "w"), indent=1)
     if meta.get("neutralised_by"):
         meta["detecting_lanes"] = ["(no longer breaks the property since /repo " + meta["neutralised_by"] + ")"]
+    if meta.get("not_counted"):
+        meta["detecting_lanes"] = ["(not counted: " + meta["not_counted"] + ")"]
     rows.append((s, meta.get("property"), meta.get("detecting_lanes", []), meta.get("needs", "")[:150].replace("\n", " ")))
 with open("seeded/MATRIX.md", "w") as out:
     out.write("# Seeded changes and the checks that catch them (quick tier)\n\n| change | property | caught by lane:clause | needs |\n|---|---|---|---|\n")
